@@ -679,7 +679,8 @@ fn do_pair(o: &mut Out, cx: &mut Ctx, a: &[ItemV], b: &[ItemV], tbl: &Table, lig
             m.ritem(0, x.0, x.1);
         }
     }
-    let wi = m.rwi(1, 16384);
+    let capb = (4 + b.iter().map(|x| 2 + x.2.len()).sum::<usize>()).min(16384);
+    let wi = m.rwi(1, capb);
     if let Some(ints) = parse_ints(&wi) {
         m.rri(4, &ints);
         m.rcrc(4);
@@ -834,16 +835,19 @@ fn gen_c09(o: &mut Out, cx: &mut Ctx, r: &mut Rng, th: bool) {
         do_pair(o, cx, &a, &b, &t, false, use_ref);
     }
     // ---- random pairs up to the limits
-    let big = if th { 200 } else { 12 };
-    for n in 0..big {
+    let plan: Vec<(usize, bool)> = if th {
+        (0..200).map(|n| (match n % 8 { 0 => 1024, 1 => 1023, 2 => 1100, 3 => r.below(1025) as usize, _ => r.below(200) as usize }, n % 8 == 4)).collect()
+    } else {
+        vec![(1024, false), (90, true), (150, false), (40, false), (1100, false), (12, false)]
+    };
+    for (n, (target_items, fill)) in plan.into_iter().enumerate() {
         let use_ref = n % 2 == 0;
         let t = if use_ref { ref_table() } else { tbl.clone() };
-        let target_items = match n % 8 { 0 => 1024, 1 => 1023, 2 => 1100, 3 => r.below(1025) as usize, _ => r.below(200) as usize };
-        let a = gen_big(r, &t, target_items, use_ref, n % 8 == 4);
+        let a = gen_big(r, &t, target_items, use_ref, fill);
         let b = mutate(r, &t, &a, use_ref);
         let light = a.len() > 150 || b.len() > 150;
         do_pair(o, cx, &a, &b, &t, light, use_ref);
-        if n % 4 == 0 {
+        if (th && n % 4 == 0) || (!th && a.len() <= 150) {
             do_pair(o, cx, &b, &a, &t, light, use_ref);
             do_pair(o, cx, &[], &b, &t, light, use_ref);
             do_pair(o, cx, &a, &[], &t, light, use_ref);
